@@ -8,3 +8,30 @@ package containers
 //@   ensures less: (result == -1) == closer(l, r, me.target)
 //@   ensures greater: (result == 1) == (!closer(l, r, me.target) && closer(r, l, me.target))
 //@   ensures equal: (result == 0) == (!closer(l, r, me.target) && !closer(r, l, me.target))
+
+// ---- the traversal frontier (C04 / C03): an abstract set view of the persistent container ----
+// has(c, x): x is a member of the persistent set c. The interface's methods are given the contracts of a finite set
+// (assumed: the implementation wraps github.com/benbjohnson/immutable.SortedMap, which is outside the module).
+//@ spec uf has(c containers.AddrMaybeIdsByDistance, x types.AddrMaybeId) bool
+
+//@ func (dht/containers.AddrMaybeIdsByDistance).Len
+//@   trusted
+//@   option uf
+//@   option noalloc
+//@   ensures result == self.Len()
+//@   ensures nonnegative: result >= 0
+//@   ensures empty-has-no-members: result == 0 ==> (forall y types.AddrMaybeId :: !has(self, y))
+//@ func (dht/containers.AddrMaybeIdsByDistance).Add
+//@   trusted
+//@   ensures a-set: result != nil
+//@   ensures members: forall y types.AddrMaybeId :: has(result, y) == (has(self, y) || y == arg0)
+//@ func (dht/containers.AddrMaybeIdsByDistance).Delete
+//@   trusted
+//@   ensures a-set: result != nil
+//@   ensures members: forall y types.AddrMaybeId :: has(result, y) == (has(self, y) && y != arg0)
+//@ func (dht/containers.AddrMaybeIdsByDistance).Next
+//@   trusted
+//@   option uf
+//@   option noalloc
+//@   ensures result == self.Next()
+//@   ensures a-member: self.Len() != 0 ==> has(self, result)
